@@ -94,7 +94,9 @@ func c01Scenarios(tier string) []*Scenario {
 				add([]GNode{depNodeFor("a", c1, "sat"), depNodeFor("b", c2, "sat"), leaf("c", map[string]string{"a": c1, "b": c2})})
 			}
 			// unsatisfied first edge in a chain
-			if tier == "thorough" || c1 == c2 {
+			// (process_started behind a process that is never released is the one condition whose
+			// meaning depends on the dependency's own dependencies: always included)
+			if tier == "thorough" || c1 == c2 || c2 == cStarted {
 				au := depNodeFor("a", c1, "unsat")
 				add([]GNode{au, b, c})
 			}
